@@ -55,20 +55,34 @@ deriving Repr
 
 namespace Map
 
-/-- `HashMap::insert` (map.rs:1790). -/
+/-- `HashMap::insert` (map.rs:1790). While hashing / searching, the arguments `k`, `v` are still
+    owned by the call and are dropped if a callback unwinds. Afterwards `v` has been moved into the
+    table; the spare key `k` is dropped on return (if that destructor panics, the old value sitting
+    in the return slot is leaked, which is rustc's behaviour for a panicking local destructor). -/
 def insert (cfg : Cfg) (env : Env) (e : Elem) (w : World) : Res (Option (Nat × Nat) × World) :=
-  (do
-    let (h, w1) ← makeHash env e.k w
-    let (r, w2) ← findOrFindInsertSlot cfg env h e.k w1
-    match r with
-    | .ok idx =>
-      let old ← liftE (slotGet w2.t idx)
+  let search : Res (Nat × Except Nat Nat × World) :=
+    (do
+      let (h, w1) ← makeHash env e.k w
+      let (r, w2) ← findOrFindInsertSlot cfg env h e.k w1
+      pure (h, r, w2)).onPanic (·.dropElemQuiet cfg e)
+  match search with
+  | .panic c w' => .panic c w'
+  | .abort => .abort
+  | .fault f => .fault f
+  | .ok (_, .ok idx, w2) =>
+    match slotGet w2.t idx with
+    | .error f => .fault f
+    | .ok old =>
       let t' := { w2.t with slots := w2.t.slots.setIfInBounds idx (some { old with vid := e.vid, v := e.v }) }
-      let w3 ← dropKeyR cfg env e.kid { w2 with t := t' }
-      pure (some (old.vid, old.v), w3)
-    | .error slot =>
-      let t' ← liftE (insertInSlot cfg w2.t h slot e)
-      pure (none, { w2 with t := t' })).onPanic (·.dropElemQuiet cfg e)
+      match dropKeyR cfg env e.kid { w2 with t := t' } with
+      | .ok w3 => .ok (some (old.vid, old.v), w3)
+      | .panic c w' => .panic c w'
+      | .abort => .abort
+      | .fault f => .fault f
+  | .ok (h, .error slot, w2) =>
+    match insertInSlot cfg w2.t h slot e with
+    | .error f => .fault f
+    | .ok t' => .ok (none, { w2 with t := t' })
 
 /-- `get_inner` (map.rs:1345): the stored element, if any. -/
 def getInner (cfg : Cfg) (env : Env) (k : Nat) (w : World) : Res (Option Nat × World) :=
